@@ -98,6 +98,7 @@ struct Rep {
 // The replica set of one process.
 struct Replicas {
     std::vector<Rep*> all;      // A/bmi2, A2/base, As, B, C (those that loaded)
+    std::vector<std::string> not_built;
     std::string dir;
     Rep* by_label(const std::string& l) const { for (auto r : all) if (r->label == l) return r; return nullptr; }
     bool load(const std::string& dir_, std::string& err, const std::vector<std::string>& which = {"A", "A2", "As", "B", "C", "G"}) {
@@ -105,6 +106,7 @@ struct Replicas {
         for (auto& n : which) {
             Rep* r = new Rep();
             if (n == "G" && access((dir + "/libjp_G.so").c_str(), R_OK) != 0) { delete r; continue; }      // the g++ replica exists in the plain flavour only
+            if (n != "A" && n != "A2" && access((dir + "/libjp_" + n + ".so").c_str(), R_OK) != 0) { delete r; not_built.push_back(n); continue; }   // configuration that does not build from this tree (failed_<n>.txt says why)
             if (!r->load(dir, n, err)) { err = n + ": " + err; return false; }
             if (n == "A") { r->want_dispatch = 1; r->label = "A/bmi2-adx"; }
             else if (n == "A2") { r->want_dispatch = 0; r->label = "A/baseline"; }
